@@ -145,13 +145,13 @@ class Ctx:
         return p
 
     # ------------------------------------------------------------------ TLC
-    def tlc(self, module, cfg=None, workers=None, env=None, timeout=1500, extra=(), heap=None, simulate=None, deadlock_ok=True):
+    def tlc(self, module, cfg=None, workers=None, env=None, timeout=1500, extra=(), heap=None, simulate=None, deadlock_ok=True, jvm=()):
         workers = workers or NCPU
         cfg = cfg or (module + '.cfg')
         md = tempfile.mkdtemp(prefix='md-', dir=self.scratch)
         # java is called directly (not through the `tlc` wrapper) so that -Xss is on the command
         # line: the launcher then gives the *main* thread (ASSUMEs, initial states) the big stack too.
-        cmd = ['timeout', str(timeout), 'java', '-Xss512m'] + (['-Xmx' + heap] if heap else []) + [
+        cmd = ['timeout', str(timeout), 'java', '-Xss512m'] + list(jvm) + (['-Xmx' + heap] if heap else []) + [
                '-XX:+UseParallelGC', '-cp', TLA_CP, 'tlc2.TLC',
                '-workers', str(workers), '-metadir', md, '-fpmem', '0.05', '-config', cfg]
         if simulate:
